@@ -61,6 +61,16 @@ def classify (deps : Task → List Task) (res : Task → Bool) (lock : Task → 
   else if (deps t).all res then lockClass (lock t)
   else .waiting
 
+/-- the copy of the classifier in `jug graph` (jug/subcommands/graph.py), in the order the code asks: can_load, can_run, is_locked, is_failed -/
+def classifyGraph (deps : Task → List Task) (res : Task → Bool) (lock : Task → LockSt) (t : Task) : Status :=
+  if res t then .finished
+  else if (deps t).all res then
+    (match lock t with
+     | .free => .ready
+     | .held => .running
+     | .failed => .failed)
+  else .waiting
+
 /-- cached `jug status` (`update_status`): `prev` = statuses stored in the cache by the previous call -/
 def classifyCached (deps : Task → List Task) (res : Task → Bool) (lock : Task → LockSt) (prev : Task → Status) (t : Task) : Status :=
   if prev t = .finished || res t then .finished
